@@ -15,9 +15,7 @@ func genC02() *rapid.Generator[SeqCase] {
 	return rapid.Custom(func(t *rapid.T) SeqCase {
 		c := SeqCase{Store: rapid.SampledFrom(gcs.Stores).Draw(t, "store")}
 		pool := gcs.NamePool
-		if vt.Thorough() {
-			pool = append(append([]string{}, gcs.NamePool...), gcs.HostileNames...)
-		}
+		pool = append(append([]string{}, gcs.NamePool...), gcs.HostileNames...) // URL-parser-hostile names (G6)
 		names := rapid.SliceOfNDistinct(rapid.SampledFrom(pool), 1, 4, func(s string) string { return s }).Draw(t, "names")
 		buckets := gcs.BucketPool[:rapid.IntRange(1, 2).Draw(t, "nbuckets")]
 		step := rapid.Custom(func(t *rapid.T) gcs.Op {
